@@ -324,6 +324,25 @@ macro_rules! verif_harness {
     };
 }
 
+/// `core::fmt::write` stub: nothing is written. For parsers whose *error paths* render a message through
+/// `Display`/`to_string()` (serde's `Error::custom`, `hex::FromHexError`, `ParseIntError`): only Ok/Err is decided,
+/// the text of error messages is outside the claim. Never applied where a *result* depends on formatting.
+pub fn fmt_write_stub(_output: &mut dyn core::fmt::Write, _args: core::fmt::Arguments<'_>) -> core::fmt::Result {
+    Ok(())
+}
+
+/// `verif_harness!` plus the `core::fmt::write` stub (error messages empty).
+#[macro_export]
+macro_rules! verif_harness_nofmt {
+    ($(#[$m:meta])* fn $name:ident() $body:block) => {
+        $crate::verif_harness! {
+            #[kani::stub(core::fmt::write, $crate::__verif_common::fmt_write_stub)]
+            $(#[$m])*
+            fn $name() $body
+        }
+    };
+}
+
 /// Like `verif_harness!` but without the `alloc::fmt::format` stub, for code under test whose
 /// *result* depends on `format!` (and which cannot reach an error path).
 #[macro_export]
@@ -364,6 +383,69 @@ pub fn memrchr_stub(x: u8, text: &[u8]) -> Option<usize> {
         }
     }
     None
+}
+
+// ------------------------------------------------------------------------------------------------
+// Strings that are built character by character (`chars().filter().collect::<String>()`): every `String::push`
+// may grow the buffer, and a growth step is a realloc with a memcpy of symbolic length at a point CBMC cannot
+// resolve (measured: three symbolic characters through `cmd::permissive_hex` exceeded 14 GB). The two stubs below
+// replace the *growth policy* of `String` (std, trusted) by a fixed pre-allocation: `String::new` reserves
+// STRING_CAP bytes and `String::push` appends the UTF-8 encoding in place, asserting that the capacity suffices
+// (so exceeding the harness bound is reported, never silently truncated). Contents and lengths are unchanged.
+pub const STRING_CAP: usize = 64;
+pub fn string_new_stub() -> String {
+    String::with_capacity(STRING_CAP)
+}
+pub fn string_push_stub(s: &mut String, ch: char) {
+    let c = ch as u32;
+    let v = unsafe { s.as_mut_vec() };
+    let len = v.len();
+    assert!(len + 4 <= v.capacity(), "harness bound: string longer than the pre-reserved capacity");
+    unsafe {
+        let p = v.as_mut_ptr().add(len);
+        if c < 0x80 {
+            *p = c as u8;
+            v.set_len(len + 1);
+        } else if c < 0x800 {
+            *p = 0xc0 | (c >> 6) as u8;
+            *p.add(1) = 0x80 | (c & 0x3f) as u8;
+            v.set_len(len + 2);
+        } else if c < 0x10000 {
+            *p = 0xe0 | (c >> 12) as u8;
+            *p.add(1) = 0x80 | ((c >> 6) & 0x3f) as u8;
+            *p.add(2) = 0x80 | (c & 0x3f) as u8;
+            v.set_len(len + 3);
+        } else {
+            *p = 0xf0 | (c >> 18) as u8;
+            *p.add(1) = 0x80 | ((c >> 12) & 0x3f) as u8;
+            *p.add(2) = 0x80 | ((c >> 6) & 0x3f) as u8;
+            *p.add(3) = 0x80 | (c & 0x3f) as u8;
+            v.set_len(len + 4);
+        }
+    }
+}
+
+/// `String::push_str` under the same model: in-place append in a constant number of 16-byte chunks (a memcpy of
+/// symbolic length at a symbolic offset is what makes `write!` into a `String` expensive). Strings that did not
+/// come from `String::new` (literals, `with_capacity`) keep std's `reserve` as the growth step.
+pub fn string_push_str_stub(s: &mut String, t: &str) {
+    let v = unsafe { s.as_mut_vec() };
+    let len = v.len();
+    let tb = t.as_bytes();
+    let n = tb.len();
+    assert!(n <= 64, "harness bound: appended piece longer than 64 bytes");
+    if len + n > v.capacity() {
+        v.reserve(n);
+    }
+    unsafe {
+        let p = v.as_mut_ptr().add(len);
+        let mut c = 0;
+        while c < 4 {
+            guarded16!(c * 16, n, |k| { *p.add(k) = tb[k]; });
+            c += 1;
+        }
+        v.set_len(len + n);
+    }
 }
 
 /// `verif_harness!` plus the memchr stub, for code under test that searches strings with a `char` pattern.
